@@ -15,7 +15,8 @@
 (*          (x: int = e) | augsub o i (o[i] -= 1) | delsub o i (del o[i]) | fort t ns body   *)
 (*          (for <target> in ns) | witht t e body (with cm(e) as <target>);                  *)
 (*          every statement has g: the site of its guard (0 = unguarded); a guard            *)
-(*          catches NameError/TypeError/AttributeError, logs the family and goes on.        *)
+(*          catches NameError/TypeError/AttributeError/IndexError/ValueError, logs the       *)
+(*          family and goes on.                                                              *)
 (*  target (k): tname x | tsub o i (o[i]) | tattr o a (o.a) | ttuple ts (t1, t2 = ..)        *)
 (*  expr (k): int n | name x | ev s a (tracer: logs the value of a at site s) | call f args *)
 (*          kws | attr o a | sub1 a | lambda c | walrus x a | comp c ns | mklist es ([..]) | *)
@@ -71,9 +72,10 @@
 (*        (PNames below: a name the inner function assigns is taken for its local even if   *)
 (*        declared nonlocal there) and the defining activation was not called from the      *)
 (*        lexical owner (PyCell below computes the search; exact up to earlier deviations)  *)
-(*  annloc an annotated assignment `x: T = e` executes in a function whose inner functions /  *)
-(*        classes mention x (pyscript's static pre-pass does not know this binding form: x    *)
-(*        is no local for it, gets no cell and is invisible to the inner functions)          *)
+(*  annloc an interpreted function whose own block contains an annotated assignment           *)
+(*        `x: T = e` is entered (pyscript's static pre-pass does not know this binding form: *)
+(*        x is no local for it - it gets no cell and is invisible to the inner functions,    *)
+(*        and a read before the assignment finds an outer / global x instead of raising)     *)
 (* census marks (no deviation, never an excuse; show that the situations occur):             *)
 (*  encsub an item of a list is stored / deleted / rebound through a target o[i] whose         *)
 (*        container or index is a variable of an ENCLOSING activation (the closure must have *)
@@ -94,7 +96,7 @@ Exc(e)  == [k |-> "exc", e |-> e]
 Fall    == [k |-> "fall"]
 IsExc(r) == r.k = "exc"
 Res(M, r) == [M |-> M, r |-> r]
-Catchable == {"NameError", "TypeError", "AttributeError"}
+Catchable == {"NameError", "TypeError", "AttributeError", "IndexError", "ValueError"}
 Builtins  == {"abs"}
 FunLike   == {"func", "native", "lambda", "comp"}
 
@@ -249,6 +251,15 @@ PNamesS(codes, body, i) ==
 PInner(codes, c) == PNamesS(codes, codes[c].body, 1) \ (BindsS(codes[c].body, 1) \cup Range(codes[c].globals))
 PMent(codes, c) == PNamesS(codes, codes[c].body, 1) \cup Range(AllParams(codes[c].sig))
                    \cup Range(codes[c].globals) \cup Range(codes[c].nonlocals)
+\* does the block contain an annotated assignment (directly, not in a nested code object)
+RECURSIVE HasAnnS(_, _)
+HasAnnS(body, i) ==
+  IF i > Len(body) THEN FALSE
+  ELSE LET s == body[i] IN
+       (CASE s.k = "annassign" -> TRUE
+          [] s.k \in {"for", "tryexc", "ifpos", "with", "fort", "witht"} -> HasAnnS(s.body, 1)
+          [] OTHER -> FALSE)
+       \/ HasAnnS(body, i + 1)
 \* does the block contain a def / class statement (pyscript keeps a function's locals in cells only then)
 RECURSIVE HasDefS(_, _)
 HasDefS(body, i) ==
@@ -359,7 +370,7 @@ GetAttr(P, M, v, a, temp) ==
 \* o[i] on values ov, iv: position (1-based) of the item, 0 = IndexError; only lists are subscriptable here
 ItemErr(M, ov, iv) == IF ov.k = "list" THEN "Unmodelled"        \* the result of a comprehension carries no items here
                       ELSE IF ov.k # "lst" \/ iv.k # "int" THEN "TypeError"
-                      ELSE LET n == Len(M.lsts[ov.o]) IN IF iv.n >= n \/ iv.n < 0 - n THEN "ABORT:IndexError" ELSE "ok"
+                      ELSE LET n == Len(M.lsts[ov.o]) IN IF iv.n >= n \/ iv.n < 0 - n THEN "IndexError" ELSE "ok"
 ItemPos(M, ov, iv) == IF iv.n < 0 THEN iv.n + Len(M.lsts[ov.o]) + 1 ELSE iv.n + 1
 GetItem(M, ov, iv) == LET e == ItemErr(M, ov, iv) IN IF e # "ok" THEN Exc(e) ELSE M.lsts[ov.o][ItemPos(M, ov, iv)]
 SetItem(M, ov, iv, v) == LET e == ItemErr(M, ov, iv) IN
@@ -479,7 +490,8 @@ CallFn(P, M, cf, fv, args, kwn, kwv) ==
               vars == [n \in P.names |-> IF n \in Range(AllParams(code.sig)) THEN val(n) ELSE Unbound]
               ucap == code.kind = "func" /\ \E x \in P.ment[fv.code] \ (P.loc[fv.code] \cup Range(code.globals)) :
                         LET w == Owner(P, M, fv.env, x) IN w # 0 /\ M.frames[w].vars[x].k = "unbound"
-              Mc   == IF code.kind = "func" /\ P.hascomp[fv.code] THEN Mark(M, "comp") ELSE M
+              Ma   == IF code.kind = "func" /\ P.hasann[fv.code] THEN Mark(M, "annloc") ELSE M
+              Mc   == IF code.kind = "func" /\ P.hascomp[fv.code] THEN Mark(Ma, "comp") ELSE Ma
               M1   == [(IF ucap THEN Mark(Mc, "ucap") ELSE Mc)
                          EXCEPT !.frames = Append(@, [code |-> fv.code, parent |-> fv.env, vars |-> vars, nat |-> fv.nat, caller |-> cf]),
                                 !.fuel = IF code.kind = "func" THEN @ - 1 ELSE @]
@@ -523,7 +535,7 @@ AssignT(P, M, f, t, v) ==
          \* unpacking: only list objects are iterable here; the length is checked before anything is stored
          IF v.k = "list" THEN Res(M, Exc("Unmodelled"))
          ELSE IF v.k # "lst" THEN Res(M, Exc("TypeError"))
-         ELSE IF Len(M.lsts[v.o]) # Len(t.ts) THEN Res(M, Exc("ABORT:ValueError"))
+         ELSE IF Len(M.lsts[v.o]) # Len(t.ts) THEN Res(M, Exc("ValueError"))
          ELSE AssignTs(P, M, f, t.ts, M.lsts[v.o], 1, TRUE)
 \* targets ts[j..] left to right; each: the j-th of vals (each = TRUE) or all of them the same value vals[1]
 AssignTs(P, M, f, ts, vals, j, each) ==
@@ -551,11 +563,7 @@ Stmt(P, M, f, s) ==
                        IF IsExc(a.r) THEN a ELSE Res([a.M EXCEPT !.box = Append(@, a.r)], Fall)
     [] s.k = "store" -> LET a == Eval(P, M, f, s.e) IN
                         IF IsExc(a.r) THEN a ELSE AssignTs(P, a.M, f, s.ts, <<a.r>>, 1, FALSE)
-    [] s.k = "annassign" ->
-         LET fc == IF f = 0 THEN 0 ELSE M.frames[f].code
-             M0 == IF f # 0 /\ P.codes[fc].kind = "func" /\ s.x \in P.inner[fc] THEN Mark(M, "annloc") ELSE M
-             a  == Eval(P, M0, f, s.e)
-         IN IF IsExc(a.r) THEN a ELSE Res(Store(P, a.M, f, s.x, a.r), Fall)
+    [] s.k = "annassign" -> LET a == Eval(P, M, f, s.e) IN IF IsExc(a.r) THEN a ELSE Res(Store(P, a.M, f, s.x, a.r), Fall)
     [] s.k = "augsub" ->
          LET r == SubRef(P, M, f, s.o, s.i) IN
          IF IsExc(r.r) THEN r
@@ -626,7 +634,8 @@ Expected(prog, flags) ==
              inner |-> [c \in 1..Len(prog.codes) |-> InnerS(prog.codes, prog.codes[c].body, 1)],
              hascomp |-> [c \in 1..Len(prog.codes) |-> HasCompS(prog.codes[c].body, 1)],
              pment |-> [c \in 1..Len(prog.codes) |-> PMent(prog.codes, c)],
-             hasdef |-> [c \in 1..Len(prog.codes) |-> HasDefS(prog.codes[c].body, 1)]]
+             hasdef |-> [c \in 1..Len(prog.codes) |-> HasDefS(prog.codes[c].body, 1)],
+             hasann |-> [c \in 1..Len(prog.codes) |-> HasAnnS(prog.codes[c].body, 1)]]
       M0 == [frames |-> <<>>, globs |-> [c \in {"main"} |-> [n \in names |-> Unbound]], ctx |-> <<"main">>,
              objs |-> <<>>, lsts |-> <<>>, box |-> <<>>, log |-> <<>>, fuel |-> prog.fuel,
              ndef |-> {}, marks |-> [m \in {"sv", "xdel", "comp", "ucap", "excas", "ndflt", "dyncap", "nldyn", "amb",
